@@ -39,10 +39,16 @@ REFIT_OPS = ("fit", "update", "update_predict") + OUTPUT_OPS + FIT_OUTPUT_OPS
 # --------------------------------------------------------------------------------------
 # calling
 # --------------------------------------------------------------------------------------
-def call(obj, op, arg):
+def call(obj, op, arg, y=None):
     """One public call.  Returns (status, canonical, raw)."""
     core.budget_start()
     try:
+        if y is not None and op in ("fit", "update", "update_predict", "fit_predict", "fit_transform"):
+            if op in ("fit", "update", "update_predict"):
+                getattr(obj, op)(arg, y)
+                return ("ok", None, None)
+            raw = getattr(obj, op)(arg, y)
+            return ("ok", canon(raw), raw)
         if op == "fit":
             obj.fit(arg)
             return ("ok", None, None)
@@ -600,6 +606,16 @@ class Sim:
             cur = None
         fault = st.get("fault")
         fkind = fault["kind"] if fault else None
+        y = None
+        if op in ("update", "update_predict") and not getattr(cl, "has_y", False):
+            # labels for a part of the training data only have no stated meaning
+            st = dict(st, y=False)
+        if st.get("y") and cl.is_det and hasattr(arg, "__len__") and op in ("fit", "update", "update_predict", "fit_predict", "fit_transform"):
+            # optional ground-truth labels, as the caller's own pandas object with its
+            # default index (they influence no output of these unsupervised detectors)
+            y = pd.Series(np.arange(len(arg)) % 2, name="y")
+            y_fp = fingerprint_arg(y)
+            self.probe("y_passed")
         arg_fp = fingerprint_arg(arg)
         was_comparable = cur is not None and self.comparable(cl, cur)
         lineage_before = cl.chunks()
@@ -609,7 +625,7 @@ class Sim:
         if fkind == "interrupt":
             self.stats["faults_planned"]["interrupt"] += 1
             tr = LineTracer(int(fault["at"]))
-            res = tr.run(lambda: call(cl.obj, op, arg))
+            res = tr.run(lambda: call(cl.obj, op, arg, y))
             if res[0] == "int":
                 fired = "interrupt"
                 self.stats["faults_fired"]["interrupt"] += 1
@@ -620,7 +636,7 @@ class Sim:
             self.stats["faults_planned"]["flaky"] += 1
             FAULTS.arm(fault["site"], int(fault["at"]))
             try:
-                res = call(cl.obj, op, arg)
+                res = call(cl.obj, op, arg, y)
             finally:
                 if FAULTS.fired:
                     fired = "flaky"
@@ -628,7 +644,7 @@ class Sim:
                 FAULTS.disarm()
                 FAULTS.fired = False
         else:
-            res = call(cl.obj, op, arg)
+            res = call(cl.obj, op, arg, y)
         if res[0] == "hang":
             fired = "hang"
             self.stats["hangs"] = self.stats.get("hangs", 0) + 1
@@ -640,6 +656,8 @@ class Sim:
         # ---- side-effect invariant: caller's data untouched
         if fingerprint_arg(arg) != arg_fp:
             self.violate("arg_mutated", cl, op, i_step, fkind, "the caller's argument object was modified by the call")
+        if y is not None and fingerprint_arg(y) != y_fp:
+            self.violate("arg_mutated", cl, op, i_step, fkind, "the caller's y object was modified by the call")
         if res[2] is not None and len(self.returned) < 400:
             self.returned.append((i_step, cl.kind, op, res[2], res[1]))
 
@@ -655,6 +673,8 @@ class Sim:
                 self.stats["faults_fired"][natural] += 1
         self.sig.append((cl.kind, op, rel, fired or natural))
 
+        if op in ("fit",) + FIT_OUTPUT_OPS:
+            cl.has_y = y is not None and res[0] == "ok"
         # ---- oracle
         compare_output = op in OUTPUT_OPS or op == "evaluate"
         if op in ("fit",) + FIT_OUTPUT_OPS:
